@@ -6,6 +6,7 @@ package main
 import (
 	"fmt"
 	"go/types"
+	"math/bits"
 	"strings"
 
 	"golang.org/x/tools/go/ssa"
@@ -248,7 +249,7 @@ func (ex *Exec) errorText(fr *Frame, v Value) string {
 	if !ok || itf.t == nil {
 		return ex.goString(v)
 	}
-	if m := ex.p.prog.LookupMethod(itf.t, nil, "Error"); m != nil && m.Signature.Params().Len() == 0 {
+	if m := ex.findMethod(itf.t, "Error"); m != nil && m.Signature.Params().Len() == 0 {
 		var out string
 		func() {
 			defer func() {
@@ -264,7 +265,7 @@ func (ex *Exec) errorText(fr *Frame, v Value) string {
 		}()
 		return out
 	}
-	if m := ex.p.prog.LookupMethod(itf.t, nil, "String"); m != nil && m.Signature.Params().Len() == 0 {
+	if m := ex.findMethod(itf.t, "String"); m != nil && m.Signature.Params().Len() == 0 {
 		var out string
 		func() {
 			defer func() {
@@ -579,7 +580,7 @@ func (ex *Exec) errorsIs(fr *Frame, err, target Iface, depth int) bool {
 				return true
 			}
 		}
-		if m := ex.p.prog.LookupMethod(err.t, nil, "Is"); m != nil && m.Signature.Params().Len() == 1 && m.Signature.Results().Len() == 1 {
+		if m := ex.findMethod(err.t, "Is"); m != nil && m.Signature.Params().Len() == 1 && m.Signature.Results().Len() == 1 {
 			r := ex.callSSA(fr, fr.callPos, m, []Value{err.v, target}, nil)
 			if rt, ok := r.(*Term); ok && ex.branch(rt, "errors.Is-method") {
 				return true
@@ -614,7 +615,22 @@ func (ex *Exec) errorsIs(fr *Frame, err, target Iface, depth int) bool {
 }
 
 func (ex *Exec) lookupUnexportedOrExported(t types.Type, name string) *ssa.Function {
-	return ex.p.prog.LookupMethod(t, nil, name)
+	return ex.findMethod(t, name)
+}
+
+// findMethod returns the method named name (exported or not) of type t, or nil.
+func (ex *Exec) findMethod(t types.Type, name string) *ssa.Function {
+	if t == nil || t == nativeType {
+		return nil
+	}
+	ms := ex.p.prog.MethodSets.MethodSet(t)
+	for i := 0; i < ms.Len(); i++ {
+		sel := ms.At(i)
+		if sel.Obj().Name() == name {
+			return ex.p.prog.MethodValue(sel)
+		}
+	}
+	return nil
 }
 
 func (ex *Exec) errorsAs(fr *Frame, err, target Iface, depth int) bool {
@@ -649,13 +665,13 @@ func (ex *Exec) errorsAs(fr *Frame, err, target Iface, depth int) bool {
 			}
 			return true
 		}
-		if m := ex.p.prog.LookupMethod(err.t, nil, "As"); m != nil && m.Signature.Params().Len() == 1 {
+		if m := ex.findMethod(err.t, "As"); m != nil && m.Signature.Params().Len() == 1 {
 			r := ex.callSSA(fr, fr.callPos, m, []Value{err.v, target}, nil)
 			if rt, ok := r.(*Term); ok && ex.branch(rt, "errors.As-method") {
 				return true
 			}
 		}
-		um := ex.p.prog.LookupMethod(err.t, nil, "Unwrap")
+		um := ex.findMethod(err.t, "Unwrap")
 		if um == nil || um.Signature.Results().Len() != 1 {
 			return false
 		}
@@ -688,7 +704,11 @@ func init() {
 					x = mkZExt(x, w)
 				}
 				res := mkConst(64, 0)
-				for i := 0; i < w; i++ {
+				top := w
+				if ub, ok := upperBound(x); ok {
+					top = bits.Len64(ub)
+				}
+				for i := 0; i < top; i++ {
 					res = mkIte(mkEq(mkExtract(x, i, i), mkConst(1, 1)), mkConst(64, uint64(i+1)), res)
 				}
 				return res
